@@ -52,12 +52,12 @@ type scenario struct {
 	Groups  []groupT            `json:"groups"`
 	Rules   string              `json:"rules"`
 	LoadErr string              `json:"load_err"`
-	Obs     map[string][]string `json:"obs"`    // rule id -> probes reported
+	Obs     map[string][]string `json:"obs"`      // rule id -> probes reported
 	OFailed bool                `json:"o_failed"` // oracle: the load must fail
 	// oracle: the load must fail because a type pattern names something its package does not declare (or the package
 	// cannot be imported); the engine's parser never looks into packages (recorded finding), so this is kept apart
-	OUnknownTypeName string `json:"o_unknown_type_name"`
-	OTarget map[string]string   `json:"o_target"` // oracle: rule id -> key of the resolved target
+	OUnknownTypeName string            `json:"o_unknown_type_name"`
+	OTarget          map[string]string `json:"o_target"` // oracle: rule id -> key of the resolved target
 }
 
 type worldEntry struct {
@@ -391,11 +391,17 @@ func main() {
 
 	// ---- scenarios: hand-written first, then random
 	mk := func(groups ...groupT) scenario { return scenario{Groups: groups} }
-	g := func(skip bool, imports []string, reqs ...reqT) groupT { return groupT{Skip: skip, Imports: imports, Reqs: reqs} }
-	tp := func(wrap, pkg, name string) reqT { return reqT{Op: "is", Kind: "typepat", Wrap: wrap, Pkg: pkg, Name: name} }
+	g := func(skip bool, imports []string, reqs ...reqT) groupT {
+		return groupT{Skip: skip, Imports: imports, Reqs: reqs}
+	}
+	tp := func(wrap, pkg, name string) reqT {
+		return reqT{Op: "is", Kind: "typepat", Wrap: wrap, Pkg: pkg, Name: name}
+	}
 	iq := func(pkg, name string) reqT { return reqT{Op: "impl", Kind: "iqual", Pkg: pkg, Name: name} }
 	ifq := func(p, name string) reqT { return reqT{Op: "impl", Kind: "ifqn", Pkg: p, Name: name} }
-	fr := func(pkg, name, m string) reqT { return reqT{Op: "hasm", Kind: "funcref", Pkg: pkg, Name: name, Meth: m} }
+	fr := func(pkg, name, m string) reqT {
+		return reqT{Op: "hasm", Kind: "funcref", Pkg: pkg, Name: name, Meth: m}
+	}
 	fio, afoo, bfoo := "example.com/io", "example.com/a/foo", "example.com/b/foo"
 	scs := []scenario{
 		mk(g(false, []string{fio}, iq("io", "Reader"), tp("", "io", "Reader"), fr("io", "Reader", "ReadFake")), g(false, nil, iq("io", "Reader"), tp("", "io", "Reader"), fr("io", "Reader", "Read"))),
